@@ -456,7 +456,12 @@ Fixpoint conc_corr (c0 : config) (prog : list line_outcome) (resps : list (optio
 Inductive case :=
 | CSeq (i : init) (ctx : bool) (ops : list op) (snap0 : option config) (cimpl : list cobs)
 | CConc (i : init) (snap0 : config) (progs : list (list line_outcome)) (resps : list (list (option json)))
-        (panicked : bool) (seen : list config) (final : config).
+        (panicked : bool) (seen : list config) (final : config)
+(** three clients, each the only writer of one setting, [rounds] acknowledged sets each, every set read
+    back through get_status and snapshot(): [lost] = sets the writer itself could not see (clause 83),
+    [bad] = well-formed sets that were not acknowledged with a result (clause 84).  In the atomic-store
+    model ([C18_conc_loads_were_stored], [C18_conc_last_store_wins]) both are necessarily zero. *)
+| CRace (rounds : Z) (lost : list Z) (bad : list Z).
 
 Definition check_case (c : case) : N :=
   match c with
@@ -482,6 +487,9 @@ Definition check_case (c : case) : N :=
       | 0%N => if corr then 0%N else (1 + 4 * 2000)%N
       | n => ((if corr then 0 else 1) + 2 + 4 * n)%N
       end
+  | CRace rounds lost bad =>
+      if negb (forallb (Z.eqb 0) lost) then (1 + 2 + 4 * 83)%N
+      else if negb (forallb (Z.eqb 0) bad) then (1 + 2 + 4 * 84)%N else 0%N
   end.
 
 (** case files are written with string literals; keep this last *)
